@@ -15,10 +15,10 @@ func init() {
 		Level: "The crash quantifier is replaced by its static counterpart: on every CFG path the durable step precedes the step that depends on it " +
 			"(WAL record before memory and before success return; write→sync→close→rename for every published artefact; checkpoint/block durable before WAL/head truncation; " +
 			"rename-aside before recursive delete), and every rename site in the module is either in the rule table or a reasoned exception.",
-		Note:     "Trusted: go/packages, go/cfg; kernel/filesystem semantics of fsync and rename; rule instances frozen in checker/c03.go.",
-		Covers:   "Commit/log order and error propagation, WL.log flush, Head.Delete/Block.Delete durability, 10 rename sites (atomic publish idiom), flush-sync-close of block/head-chunk files, truncation-after-checkpoint/compaction order in head, db and agent, delete-after-rename in deleteBlocks, tmp cleanup before reload, owners of WL.Truncate/DeleteCheckpoints/truncateMemory/ChunkDiskMapper.Truncate.",
-		NotCover: "torn writes inside a page, kernel/filesystem semantics, the content of what is written, recovery behaviour at actual crash points.",
-		Run:      runC03,
+		Note:           "Trusted: go/packages, go/cfg; kernel/filesystem semantics of fsync and rename; rule instances frozen in checker/c03.go.",
+		Covers:         "Commit/log order and error propagation, WL.log flush, Head.Delete/Block.Delete durability, 10 rename sites (atomic publish idiom), flush-sync-close of block/head-chunk files, truncation-after-checkpoint/compaction order in head, db and agent, delete-after-rename in deleteBlocks, tmp cleanup before reload, owners of WL.Truncate/DeleteCheckpoints/truncateMemory/ChunkDiskMapper.Truncate.",
+		NotCover:       "torn writes inside a page, kernel/filesystem semantics, the content of what is written, recovery behaviour at actual crash points.",
+		Run:            runC03,
 		MinObligations: 70,
 	})
 }
